@@ -85,6 +85,9 @@ func quiesceOrBusy(h *hlog, maxWait time.Duration, markers ...string) (ok bool, 
 			if _, b := countGoroutines(markers...); b > 0 {
 				busySamples++
 			}
+			if samples >= 3000 && busySamples*10 >= samples*9 {
+				return false, true // a busy loop: no point in waiting out the full limit
+			}
 		} else {
 			samples, busySamples = 0, 0
 		}
@@ -92,6 +95,14 @@ func quiesceOrBusy(h *hlog, maxWait time.Duration, markers ...string) (ok bool, 
 		time.Sleep(200 * time.Microsecond)
 	}
 	return false, samples >= 1000 && busySamples*10 >= samples*9
+}
+
+// poisoned is set once a scenario left a goroutine spinning: it cannot be stopped, quiescence can never be
+// observed again in this process, so the remaining cases are reported as not run (inconclusive).
+var poisoned bool
+
+func skippedObs() *Obs {
+	return &Obs{Obs: []any{}, Aux: map[string]any{"quiescent": false, "skipped": true}}
 }
 
 // ---------------------------------------------------------------- chans.Merge / chans.Replicate
@@ -104,6 +115,9 @@ type chCmd struct {
 // cfg: kind "merge"|"replicate", nin, nout, caps (one per channel: inputs first, then outputs)
 // ops: ["start"] ["send",k,v] ["close",k] ["permit",j,n] ["quiesce"]
 func runChans(c *Case) *Obs {
+	if poisoned {
+		return skippedObs()
+	}
 	h := &hlog{}
 	kind := c.Cfg["kind"].(string)
 	nin, nout := num(c.Cfg["nin"]), num(c.Cfg["nout"])
@@ -180,6 +194,9 @@ func runChans(c *Case) *Obs {
 		h.add("quiesce", ok)
 	}
 	for _, op := range c.Ops {
+		if spinning {
+			break
+		}
 		switch op[0].(string) {
 		case "start":
 			if started {
@@ -229,7 +246,10 @@ func runChans(c *Case) *Obs {
 			doQuiesce()
 		}
 	}
-	doQuiesce()
+	if !spinning {
+		doQuiesce()
+	}
+	poisoned = poisoned || spinning
 	evs := h.snapshot()
 	// clean up: stop the helpers, then close what is still open and drain the outputs so that the call returns
 	close(kill)
@@ -352,6 +372,9 @@ func resOf(v int, err error) []any {
 // cfg: n, scripts ([[items...]...]), fins ([["end"]|["err",code]...]), prog ([["next",c]|["close"]...])
 // ops: ["merge"] ["release",i,k] ["go",k] ["cancel",c] ["quiesce"]
 func runSMerge(c *Case) *Obs {
+	if poisoned {
+		return skippedObs()
+	}
 	h := &hlog{}
 	n := num(c.Cfg["n"])
 	kill := make(chan struct{})
@@ -424,6 +447,9 @@ func runSMerge(c *Case) *Obs {
 	}
 	mergedOnce := false
 	for _, op := range c.Ops {
+		if spinning {
+			break
+		}
 		switch op[0].(string) {
 		case "merge":
 			if mergedOnce {
@@ -457,7 +483,10 @@ func runSMerge(c *Case) *Obs {
 			doQuiesce()
 		}
 	}
-	doQuiesce()
+	if !spinning {
+		doQuiesce()
+	}
+	poisoned = poisoned || spinning
 	evs := h.snapshot()
 	// clean up: cancel the consumer's contexts, stop the consumer, close the stream if the scenario did not,
 	// and as a last resort kill the sources
